@@ -215,10 +215,28 @@ def parse_output(out: str, harness_names):
     return res
 
 
+BATCH = 60   # kani-driver keeps every harness' artefacts in memory: 250 harnesses in one
+             # invocation reached 18 GB and were OOM-killed (measured)
+
+
 def run_harnesses(scratch, crate: str, harnesses, jobs=None, extra_flags=None):
-    """One cargo-kani invocation for all harnesses of a crate."""
+    """cargo-kani invocations (batches of at most BATCH harnesses) for the harnesses of a crate."""
+    if len(harnesses) > BATCH:
+        res, cmds, wall, texts = {}, [], 0.0, []
+        for i in range(0, len(harnesses), BATCH):
+            r, c, w, t = _run_harnesses(scratch, crate, harnesses[i:i + BATCH], jobs, extra_flags)
+            res.update(r)
+            cmds.append(c)
+            wall += w
+            texts.append(t)
+        return res, cmds[0] + f"  (+{len(cmds) - 1} more batches)", wall, "\n".join(texts)
+    return _run_harnesses(scratch, crate, harnesses, jobs, extra_flags)
+
+
+def _run_harnesses(scratch, crate: str, harnesses, jobs=None, extra_flags=None):
+    """One cargo-kani invocation for a batch of harnesses of a crate."""
     if not harnesses:
-        return {}, "", 0.0
+        return {}, "", 0.0, ""
     jobs = jobs or min(NCPU, max(1, len(harnesses)))
     tmo = max(h.timeout for h in harnesses)
     cmd = ["cargo", "kani", "-p", crate] + KANI_FLAGS + CRATE_FEATURES.get(crate, [])
